@@ -610,5 +610,5 @@ func mcpPart(r *runner.Run) {
 		"oracle: qmodel counts, database rows = model (all columns; next_run_at only for rows the call must not touch because the MCP process stamps with its own wall clock), refused call leaves every row identical",
 		size, len(s.filter)))
 	r.Assume("MCP documentation is silent on limit <= 0 or > 1000, inapplicable/unknown state filters and blank/empty/oversized id lists for mutation tools: a refused call that changed nothing and an accepted call obeying the model are both accepted")
-	r.Assume("MCP through the Admin API proxy (memory/postgres backends) is not executed here; the proxied endpoints are the ones the admin part enumerates")
+	r.Assume("this part is the direct-SQLite mode of the MCP server; MCP through the Admin API proxy (memory/postgres backends) is the mcp-proxy part (proxy_test.go)")
 }
